@@ -111,8 +111,10 @@ class StaticFileHandler(RequestHandler):
             # Try each index filename in order (per Gemini best practices)
             index_found = False
             for index_name in self.default_indices:
-                index_path = file_path / index_name
-                if index_path.exists() and index_path.is_file():
+                # The index file may itself be a symlink: resolve it and apply
+                # the same containment check as for the requested path
+                index_path = (file_path / index_name).resolve()
+                if index_path.is_file() and self._is_safe_path(index_path):
                     file_path = index_path
                     index_found = True
                     break
